@@ -1,4 +1,5 @@
 import JsonPathVerif.OrderSM
+import JsonPathVerif.ParsedOk
 /-! # C02 – results are in RFC 9535 document order, duplicates preserved
 
 Full statement, refutation on the model (replayed on the crate by the check: known finding
@@ -61,6 +62,15 @@ theorem C02_partial_sharp (E : Engine) (q : List Segment) (d : Json) (hq : okSeg
   congr 1
   have := congrArg (List.map (·.1)) h2
   simpa [List.map_map, Function.comp_def, toN] using this
+
+/-- end to end, on query strings: for every accepted, escape-free query string of plain shape the result list is the
+selector-major variant of the RFC nodelist, and it is the RFC nodelist itself (order included) unless some multi-selector
+segment receives two or more nodes -/
+theorem C02_parsed (E : Engine) (s : Str) (q : List Segment) (d : Json) (hp : parseJsonPath s = .ok q)
+    (he : KF.escFreeSegs q = true) (hs : shSegs q = true) :
+    locsOf (jsPathProcess E q d) = some ((Spec.querySM E q d).map (·.1)) ∧
+    (KF.multiSelOnMulti E d q [([], d)] = false → locsOf (jsPathProcess E q d) = some ((Spec.query E q d).map (·.1))) :=
+  ⟨C02_characterised E q d (parsed_ok s q hp he hs), C02_partial_sharp E q d (parsed_ok s q hp he hs)⟩
 
 /-- non-vacuity of the sharp form: `$[0][0,1]` has a union but it receives one node -/
 example : KF.multiSelOnMulti E0 witnessDoc [.selector (.index 0), .selectors [.index 0, .index 1]] [([], witnessDoc)] = false := by decide
